@@ -142,6 +142,94 @@ func c08Run(dir, typ, shape string, rg c08Reg) (*c08Case, error) {
 	return cs, nil
 }
 
+// c08WantBasic: the basic type a component of the spelled type must resolve to (pointers resolve to uintptr).
+func c08WantBasic(typ string) *types.Basic {
+	if typ == "unsafe.Pointer" {
+		return types.Typ[types.UnsafePointer]
+	}
+	if strings.HasPrefix(typ, "*") {
+		return types.Typ[types.Uintptr]
+	}
+	if obj := types.Universe.Lookup(typ); obj != nil {
+		if b, ok := obj.Type().Underlying().(*types.Basic); ok {
+			return types.Typ[b.Kind()]
+		}
+	}
+	return nil
+}
+
+// c08Sub: a navigation from a parameter/result of a composite (possibly named) type to a primitive part.
+type c08Sub struct {
+	name  string
+	typ   func() types.Type
+	nav   func(gotypes.Component) gotypes.Component
+	want  *types.Basic
+	store bool // part may be the target of a Store
+}
+
+func c08Named(name string, under types.Type) types.Type {
+	return types.NewNamed(types.NewTypeName(0, nil, name, nil), under, nil)
+}
+
+var c08Subs = []c08Sub{
+	{"complex64.real", func() types.Type { return types.Typ[types.Complex64] }, gotypes.Component.Real, types.Typ[types.Float32], true},
+	{"complex64.imag", func() types.Type { return types.Typ[types.Complex64] }, gotypes.Component.Imag, types.Typ[types.Float32], true},
+	{"complex128.real", func() types.Type { return types.Typ[types.Complex128] }, gotypes.Component.Real, types.Typ[types.Float64], true},
+	{"complex128.imag", func() types.Type { return types.Typ[types.Complex128] }, gotypes.Component.Imag, types.Typ[types.Float64], true},
+	{"named-complex64.real", func() types.Type { return c08Named("C", types.Typ[types.Complex64]) }, gotypes.Component.Real, types.Typ[types.Float32], true},
+	{"named-complex64.imag", func() types.Type { return c08Named("C", types.Typ[types.Complex64]) }, gotypes.Component.Imag, types.Typ[types.Float32], true},
+	{"named-complex128.real", func() types.Type { return c08Named("D", types.Typ[types.Complex128]) }, gotypes.Component.Real, types.Typ[types.Float64], true},
+	{"named-complex128.imag", func() types.Type { return c08Named("D", types.Typ[types.Complex128]) }, gotypes.Component.Imag, types.Typ[types.Float64], true},
+	{"string.len", func() types.Type { return types.Typ[types.String] }, gotypes.Component.Len, types.Typ[types.Int], true},
+	{"string.base", func() types.Type { return types.Typ[types.String] }, gotypes.Component.Base, types.Typ[types.Uintptr], true},
+	{"named-string.len", func() types.Type { return c08Named("S", types.Typ[types.String]) }, gotypes.Component.Len, types.Typ[types.Int], true},
+	{"slice.len", func() types.Type { return types.NewSlice(types.Typ[types.Uint16]) }, gotypes.Component.Len, types.Typ[types.Int], true},
+	{"slice.cap", func() types.Type { return types.NewSlice(types.Typ[types.Uint16]) }, gotypes.Component.Cap, types.Typ[types.Int], true},
+	{"slice.base", func() types.Type { return types.NewSlice(types.Typ[types.Uint16]) }, gotypes.Component.Base, types.Typ[types.Uintptr], true},
+	{"named-slice.cap", func() types.Type { return c08Named("L", types.NewSlice(types.Typ[types.Float32])) }, gotypes.Component.Cap, types.Typ[types.Int], true},
+	{"array.elem", func() types.Type { return types.NewArray(types.Typ[types.Int16], 3) }, func(c gotypes.Component) gotypes.Component { return c.Index(2) }, types.Typ[types.Int16], true},
+	{"named-uint32", func() types.Type { return types.NewArray(c08Named("U", types.Typ[types.Uint32]), 2) }, func(c gotypes.Component) gotypes.Component { return c.Index(1) }, types.Typ[types.Uint32], true},
+	{"struct.field", func() types.Type {
+		return types.NewStruct([]*types.Var{types.NewField(0, nil, "a", types.Typ[types.Int8], false), types.NewField(0, nil, "b", types.Typ[types.Uint32], false)}, nil)
+	}, func(c gotypes.Component) gotypes.Component { return c.Field("b") }, types.Typ[types.Uint32], true},
+}
+
+func c08RunSub(dir string, sub c08Sub, shape string, rg c08Reg) (*c08Case, error) {
+	t := sub.typ()
+	pt := types.NewPointer(t)
+	params := types.NewTuple(types.NewVar(0, nil, "x", t), types.NewVar(0, nil, "p", pt))
+	results := types.NewTuple(types.NewVar(0, nil, "r", t), types.NewVar(0, nil, "q", pt))
+	c := build.NewContext()
+	c.Function("f")
+	c.Signature(gotypes.NewSignature(nil, types.NewSignatureType(nil, nil, nil, params, results, false)))
+	if c.VerifErrCount() != 0 {
+		return nil, fmt.Errorf("signature for %s: %v", sub.name, c.VerifErrMessages())
+	}
+	var comp gotypes.Component
+	base := reg.R14
+	switch {
+	case dir == "load" && shape == "param":
+		comp = c.Param("x")
+	case dir == "load" && shape == "deref":
+		comp = c.Param("p").Dereference(base)
+	case dir == "store" && shape == "param":
+		comp = c.Return("r")
+	default:
+		comp = c.Return("q").Dereference(base)
+	}
+	comp = sub.nav(comp)
+	cs := &c08Case{dir: dir, typ: sub.name, reg: rg, shape: shape}
+	if b, err := comp.Resolve(); err == nil {
+		cs.basic, cs.mem = b.Type, b.Addr
+	}
+	if dir == "load" {
+		cs.out = c08Observe(c, func() { c.Load(comp, rg.r) })
+	} else {
+		cs.out = c08Observe(c, func() { c.Store(rg.r, comp) })
+	}
+	return cs, nil
+}
+
 func c08TypeToken(t string) string {
 	return strings.NewReplacer(" ", "", "{", "(", "}", ")", ",", ";").Replace(t)
 }
@@ -176,7 +264,16 @@ func init() {
 							return fmt.Errorf("%s %s: component did not resolve", dir, typ)
 						}
 						n++
-						ti, ts := int(cs.basic.Info()), int(gotypes.Sizes.Sizeof(cs.basic))
+						// the expected basic type comes from the SPELLED type (go/types universe), not from what
+						// the component resolved to: a component resolving to another type is a violation
+						want := c08WantBasic(typ)
+						if want == nil {
+							return fmt.Errorf("no expectation for type %s", typ)
+						}
+						if cs.basic.Kind() != want.Kind() {
+							o.emit(fmt.Sprintf("accept-movsel %s %s %s %d %d %s => resolved-as:%s", dir, c08TypeToken(want.Name()), rg.class, int(want.Info()), int(gotypes.Sizes.Sizeof(want)), c06EncOp(rg.r), cs.basic.Name()), "ok")
+						}
+						ti, ts := int(want.Info()), int(gotypes.Sizes.Sizeof(want))
 						regTok := c06EncOp(rg.r)
 						o.emit(fmt.Sprintf("mov %s %d %d %s %s", dir, ti, ts, c06EncOp(cs.mem), regTok), cs.out.resp)
 						o.emit(fmt.Sprintf("accept-movsel %s %s %s %d %d %s => %s", dir, c08TypeToken(cs.basic.Name()), rg.class, ti, ts, regTok, cs.out.resp), "ok")
@@ -199,6 +296,33 @@ func init() {
 								o.emit(fmt.Sprintf("accept-movsel %s %s %s %d %d %s => error-message:%s", dir, c08TypeToken(cs.basic.Name()), rg.class, ti, ts, regTok, c06Hex(cs.out.msg)), "ok")
 							}
 						}
+					}
+				}
+			}
+			// sub-components of composite and NAMED types (parts of complex numbers, string/slice headers): the
+			// expected basic type is given by the table c08Subs, independently of gotypes
+			for _, sub := range c08Subs {
+				for _, rg := range c08Registers() {
+					for _, shape := range []string{"param", "deref"} {
+						cs, err := c08RunSub(dir, sub, shape, rg)
+						if err != nil {
+							return err
+						}
+						n++
+						want := sub.want
+						ti, ts := int(want.Info()), int(gotypes.Sizes.Sizeof(want))
+						regTok := c06EncOp(rg.r)
+						tag := c08TypeToken(want.Name())
+						if cs.basic == nil {
+							o.emit(fmt.Sprintf("accept-movsel %s %s %s %d %d %s => unresolved:%s", dir, tag, rg.class, ti, ts, regTok, c06Hex(sub.name)), "ok")
+							continue
+						}
+						if cs.basic.Kind() != want.Kind() {
+							o.emit(fmt.Sprintf("accept-movsel %s %s %s %d %d %s => resolved-as:%s", dir, tag, rg.class, ti, ts, regTok, cs.basic.Name()), "ok")
+						}
+						hist["sub:"+sub.name]++
+						o.emit(fmt.Sprintf("mov %s %d %d %s %s", dir, ti, ts, c06EncOp(cs.mem), regTok), cs.out.resp)
+						o.emit(fmt.Sprintf("accept-movsel %s %s %s %d %d %s => %s", dir, tag, rg.class, ti, ts, regTok, cs.out.resp), "ok")
 					}
 				}
 			}
